@@ -574,6 +574,14 @@ class SpecLib:
             box.val = VSeq("list", s.ety, z3.Concat(s.t, r.t))
 
     def container_len(self, ex, box):
+        if box.kind == "dict" and isinstance(box.val, DictVal):
+            self.use("len(dict): uninterpreted cardinality of the key set, >= 0")
+            f = z3.Function("dict_card_%s" % str(box.val.keys.sort()).replace(" ", "_").replace("(", "").replace(")", ""),
+                            box.val.keys.sort(), I)
+            ex.define(f(box.val.keys) >= 0)
+            return f(box.val.keys)
+        if box.kind == "dict" and box.val is None:
+            return z3.IntVal(0)
         if box.kind == "set" and isinstance(box.val, SetVal) and box.val.mode == "cond":
             if not box.val.items:
                 return z3.IntVal(0)
